@@ -6,3 +6,5 @@ import J1939.Props.C01
 #print axioms J1939.Props.C01.c01_originator_announce
 #print axioms J1939.Props.C01.c01_responder_delivers
 #print axioms J1939.Props.C01.c01_ack_reported
+#print axioms J1939.Props.C01.c01_bam_originator_frames
+#print axioms J1939.Props.C01.c01_bam_end_to_end
